@@ -48,9 +48,10 @@ reg("C15", ["c15_endian.c"],
          "and 24 bit (16 bit at every alignment 0..7), 32 bit strided by 211 (quick) or all 2^32 (thorough), wider: "
          "every octet lane x every octet value x 3 fills x 8 alignments, all one- and two-bit patterns and their "
          "complements, boundaries, float classes incl. NaN payloads, seeded random; plus exact-size poisoned-arena "
-         "objects. Swaps: all 16/24-bit values, strided/all 32-bit, lanes+bits+random for wider. Range predicates: "
+         "objects; the unsigned 24/40/48/56-bit setters also get containers with mixed bits above the width. Swaps: all 16/24-bit values, strided/all 32-bit, lanes+bits+random for wider. Range predicates: "
          "2^i +- 3, extremes, random magnitudes. A signature is (codec or helper, chunk); evaluations counts single "
          "store+load (or swap, predicate) comparisons.",
+    assumptions=["a value that does not fit the width of an unsigned 24/40/48/56-bit setter is stored modulo 2^width: the header says the argument may hold such values and is not checked, and the library's own signed setters hand sign-extended values to the unsigned ones"],
     exhaustive={"quick": "all 16- and 24-bit values of every codec and swap",
                 "thorough": "all 16-, 24- and 32-bit values of every codec and swap"})
 
@@ -66,11 +67,11 @@ reg("C19", ["c19_ring.c"],
 
 reg("C18", ["c18_bytebuf.c"],
     rule="'closure': for sizes 1..5, starting from an empty buffer, every operation (add with every length 0..size+1 "
-         "and every content over {a1,b2}; consume and consume_at_most with every length 0..size+1; rewind, reset, "
+         "and every content over {a1,b2} and, in a second run per size, over {00,a1}; consume and consume_at_most with every length 0..size+1; rewind, reset, "
          "clear, repeat) is executed from every reached (offset, used, memory image) state until closure; "
          "'setup': set/use/space on all argument combinations size 0..6 x used 0..7 x offset 0..8 x NULL; "
          "'history': seeded random histories on sizes 1..300 (and 255..66000) with operand lengths biased to the "
-         "boundary. Requests that must be refused get no destination (NULL) or a poisoned one a third of the time "
+         "boundary (every second history carries zero octets). Requests that must be refused get no destination (NULL) or a poisoned one a third of the time "
          "each. A "
          "signature is a distinct reached state, a set-up argument tuple or a history; evaluations counts "
          "operations executed and compared with the list model.",
@@ -87,7 +88,9 @@ reg("C14", ["c14_varint.c"],
          "with 1, 9 and 12 consumed octets in front) and given to all four buffer decoders and all four source "
          "decoders; every value of the round trip is also encoded into a buffer that "
          "was used and drained before (offset = used = 1..7, exactly the maximum length free behind it: marks, memory "
-         "image, read-back through a buffer source and through the buffer decoder). A signature is (generator, type, "
+         "image, read-back through a buffer source and through the buffer decoder) and read from a source whose driver "
+         "is interrupted once (EINTR / EAGAIN) at one of its calls - a success must then carry value, length and octets "
+         "of the encoding. A signature is (generator, type, "
          "chunk); evaluations counts round trips and decoder input strings.",
     exhaustive={"quick": "all octet strings of length <= 7 over the 6-octet alphabet as decoder input",
                 "thorough": "all 2^32 values of u32 and s32; all octet strings of length <= 11 over the 6-octet alphabet"})
@@ -199,7 +202,9 @@ reg("C11", ["c11_pcrash.c"], level="fault_enumeration",
          "replayed offline into every prefix and every octet-granular tear of each write, and each image is "
          "validated (and, at whole-write granularity, fetched) on a fresh instance. Faults: every medium access k of "
          "store, store_part, reset, validate, fetch, fetch_part fails (moves nothing and reports 0), transfers one "
-         "octet short, or moves nothing and reports (size_t)-1, for every k. 'big': data sizes 300, 65536, 65539 with "
+         "octet short, or moves nothing and reports (size_t)-1, for every k; in every second of these runs the instance "
+         "has validated its medium before the operation and validates it again after the fault (same verdict as a "
+         "fresh instance required). 'big': data sizes 300, 65536, 65539 with "
          "auxiliary buffers 4096/65535/65536/size+1 (tears sampled around the 8- and 16-bit boundaries); 'manyreads': crash images of stores and partial stores at 33000..70000 octets with no auxiliary buffer or one of 1-2 octets, where a checksum over the medium takes tens of thousands of accesses (writes recorded only, no fault injection). A signature is a (configuration, aux size) pair; evaluations counts crash images judged plus "
          "fault positions injected.",
     assumptions=["a torn write leaves a prefix of its octets on the medium; writes are not reordered",
@@ -318,8 +323,9 @@ reg("C08", ["c08_regp_emit.c"],
          "requests and the payload acknowledgement; 'huge': payloads of 65534..140002 octets (2^16 octets and 2^16 "
          "words and beyond); 'seqsweep': on the serial link every sequence number once per entry point and memory "
          "word size, so that the header checksum takes every 16-bit value about once. Each emission is compared "
-         "octet for octet with the reference (the emitter's sink takes all or 1, 3, 7, 64 octets per call; allocators "
-         "are of the generic or the slab type, alternately) "
+         "octet for octet with the reference (the emitter's sink is chunk- or octet-style, takes all or 1, 3, 7, 64 octets per call, and every fourth "
+         "emission meets one sink call that is interrupted with EAGAIN / EINTR - an emission that reports failure then "
+         "is not judged; allocators are of the generic or the slab type, alternately) "
          "encoder and then received by a peer instance. A signature is a (unit, round); evaluations counts emissions.")
 
 reg("C07", ["c07_regp_corrupt.c"], level="fault_enumeration",
